@@ -314,7 +314,7 @@ CLAIMED = {
     "C23": dict(
         text="Theorems C23_two_participants (two participants, EVERY interleaving of their start / stop steps and every outcome of the ethertype draws - closed "
              "finite set of states with closure and invariants checked inside the kernel: at most one installs the dispatcher at a time, running participants "
-             "have distinct ethertypes), C23_three_participants_explored (the same invariants on all 22998 states of the exhaustive exploration for three), "
+             "have distinct ethertypes), C23_three_participants_explored (the same invariants on all 25860 states of the exhaustive exploration for three), "
              "C23_windows_distinct / _disjoint / C23_groups_in_window (EVERY history of window allocations and releases of any number of processes: distinct "
              "window numbers, disjoint windows, sync-group blocks inside the window); C23_refuted_stays_installed gives the machine-checked schedule of the "
              "recorded race. Tie: the REAL ParallelEtherCat.run() runs in forked processes whose operations on the lock directory, the pinned table and the "
